@@ -77,13 +77,18 @@ def notes_sweep(part):
 
 
 # ----------------------------------------------------------------------------- (b) patterns
+def module_of(k):
+    """k-distinct 16-bit module numbers that use the HIGH byte too (k, k+0x100, k+0x200, ... cyclically)."""
+    return (k + 0x100 * (k % 7)) & 0xFFFF
+
+
 def image(tracks, lines):
     out = bytearray()
     k = 0
     for _l in range(lines):
         for _t in range(tracks):
             k += 1
-            out += pack("<BBHHH", 1 + k % 120, k % 130, k, (k * 257) & 0xFFFF, (k * 4099 + 7) & 0xFFFF)
+            out += pack("<BBHHH", 1 + k % 120, k % 130, module_of(k), (k * 257) & 0xFFFF, (k * 4099 + 7) & 0xFFFF)
     return bytes(out)
 
 
@@ -113,18 +118,23 @@ def pattern_shape(tracks, lines):
         for t in range(tracks):
             k += 1
             nt = pat.data[li][t]
-            if (nt.module, nt.vel) != (k, k % 130):
+            if (nt.module, nt.vel) != (module_of(k), k % 130):
                 vs.append(C.viol("pattern-not-row-major", key, {"line": li, "track": t, "module": nt.module, "expected": k}, case))
                 break
-    # through a file: substitute the PDTA payload of a saved default pattern of that shape
-    p = rv.Project()
-    p.attach_pattern(rv.Pattern(tracks=tracks, lines=lines))
-    chunks = codec.parse_chunks(C.save(p))
-    chunks = [(i, img if i == b"PDTA" else d) for i, d in chunks]
-    b = codec.build_chunks(chunks)
-    p2 = C.load_bytes(b)
-    if p2.patterns[0].raw_data != img:
-        vs.append(C.viol("pattern-load", key, {}, case))
+    # through a file: substitute the PDTA payload of a saved default pattern of that shape; the file says it
+    # was written by the current version (VERS), whatever it says about the version it is BASED on (BVER)
+    for bver in ((2, 1, 2, 1), (1, 9, 4, 0), (1, 7, 0, 0), None):
+        p = rv.Project()
+        p.attach_pattern(rv.Pattern(tracks=tracks, lines=lines))
+        if bver is not None:
+            p.based_on_version = bver
+        chunks = codec.parse_chunks(C.save(p))
+        chunks = [(i, img if i == b"PDTA" else d) for i, d in chunks if not (bver is None and i == b"BVER")]
+        b = codec.build_chunks(chunks)
+        p2 = C.load_bytes(b)
+        if p2.patterns[0].raw_data != img:
+            vs.append(C.viol("pattern-load", dict(key, based_on="absent" if bver is None else ".".join(map(str, bver))), {}, case))
+            break
     b2 = C.save(p2)
     pd = [d for i, d in codec.parse_chunks(b2) if i == b"PDTA"]
     if pd != [img]:
@@ -132,7 +142,7 @@ def pattern_shape(tracks, lines):
     dec = codec.decode(b2)
     cells = dec.value["patterns"][0]["cells"]
     flat = [c for row in cells for c in row]
-    if len(cells) != lines or any(len(r) != tracks for r in cells) or [c[2] for c in flat] != list(range(1, tracks * lines + 1)):
+    if len(cells) != lines or any(len(r) != tracks for r in cells) or [c[2] for c in flat] != [module_of(k) for k in range(1, tracks * lines + 1)]:
         vs.append(C.viol("pattern-independent-decode", key, {"problems": dec.problems[:3]}, case))
     return 4, vs
 
